@@ -154,7 +154,7 @@ func parseContracts(file string, src []byte) ([]*FuncContract, error) {
 			}
 			lo, err1 := strconv.Atoi(f[len(f)-2])
 			hi, err2 := strconv.Atoi(f[len(f)-1])
-			if err1 != nil || err2 != nil || hi < lo || hi-lo > 40 {
+			if err1 != nil || err2 != nil || hi < lo || hi-lo > 70 {
 				return nil, fmt.Errorf("%s:%d: bad cases range", file, ln+1)
 			}
 			cl.Text = strings.Join(f[:len(f)-2], " ")
